@@ -9,6 +9,7 @@
  *   g <n>           collect after every n-th rejected input (accepted inputs always collect); default 8
  *   x <0|1>         exercise on/off
  *
+ * input also:  "m <hex>"  plain janet_unmarshal(bytes, len, 0, NULL, &next)  ->  "acc <consumed> <type>" | "rej <class>"
  * output:  "rej <class>" | "acc <type> <summary>"      class = first words of the error message, digits removed
  */
 #include "features.h"
@@ -484,6 +485,28 @@ static void do_unmarshal(const uint8_t *bytes, size_t len, int exercise) {
     printf("ok\n");
 }
 
+/* m: what the byte-level Lean model predicts - accept / reject, the error class, bytes consumed, type of the value */
+static void do_unmarshal_plain(const uint8_t *bytes, size_t len) {
+    JanetTryState ts;
+    volatile int ok = 0;
+    const uint8_t *next = NULL;
+    Janet x = janet_wrap_nil();
+    if (janet_try(&ts) == JANET_SIGNAL_OK) {
+        x = janet_unmarshal(bytes, len, 0, NULL, &next);
+        ok = 1;
+    }
+    janet_restore(&ts);
+    if (!ok) {
+        char cls[128];
+        errclass(ts.payload, cls, sizeof cls);
+        printf("rej %s\n", cls);
+    } else {
+        n_acc++;
+        printf("acc %ld %s\n", (long)(next - bytes), tname(x));
+    }
+    if (gc_every && (n_inputs % gc_every) == 0) collect_now();
+}
+
 static void do_asm(const uint8_t *text, size_t len) {
     JanetParser p;
     janet_parser_init(&p);
@@ -554,6 +577,7 @@ static Janet harness_run(int32_t argc, Janet *argv) {
     if (cur_op == 'u') do_unmarshal(cur_bytes, cur_len, do_exercise);
     else if (cur_op == 'U') do_unmarshal(cur_bytes, cur_len, 0);
     else if (cur_op == 'a') do_asm(cur_bytes, cur_len);
+    else if (cur_op == 'm') do_unmarshal_plain(cur_bytes, cur_len);
     else printf("bad-op\n");
     return janet_wrap_nil();
 }
